@@ -413,7 +413,7 @@ namespace GeographicLib {
     real
       tnm1 = _t0nm1 + _n * drho/_scale,
       dpsi = (den == 0 ? 0 :
-              (tnm1 + 1 != 0 ? - Dlog1p(tnm1, _t0nm1) * drho / _scale :
+              (!(tnm1 + 1 <= 0) ? - Dlog1p(tnm1, _t0nm1) * drho / _scale :
                ahypover_));
     real tchi;
     if (2 * _n <= 1) {
@@ -430,7 +430,7 @@ namespace GeographicLib {
       // (1-1/n) = - nc^2/(n*(1+n))
       // cosh(log(tn)) = (tn + 1/tn)/2; sinh(log(tn)) = (tn - 1/tn)/2
       real
-        tn = tnm1 + 1 == 0 ? epsx_ : tnm1 + 1,
+        tn = tnm1 + 1 <= 0 ? epsx_ : tnm1 + 1,
         sh = sinh( -Math::sq(_nc)/(_n * (1 + _n)) *
                    (2 * tn > 1 ? log1p(tnm1) : log(tn)) );
       tchi = sh * (tn + 1/tn)/2 - hyp(sh) * (tnm1 * (tn + 1)/tn)/2;
